@@ -72,7 +72,8 @@ def main(tier, replay):
         "(1) FanProjData family: make_fan_data_remove_gaps, set_fan_data_add_gaps, get_fan_info, accessors / is_in_data, apply_efficiencies / apply_block_norm / "
         "apply_geo_norm (apply=true,false), make_fan_sum_data (3 overloads, incl. the one without model), make_block_data, make_geo_data, iterate_efficiencies "
         "(with and WITHOUT model) / iterate_block_norm / iterate_geo_norm, KL. "
-        "(2) DetPairData family (ops dp*): make_det_pair_data (both overloads) and set_det_pair_data on 2-3 (segment, axial position) pairs per segment, "
+        "(2) DetPairData family (ops dp*): make_det_pair_data (both overloads) and set_det_pair_data on EVERY segment and EVERY axial position of the span-1 "
+        "data (round trip of both sinograms +s / -s, every entry = bin of its detector pair with the ring pair of that sinogram, every OTHER sinogram untouched), "
         "apply_efficiencies / apply_block_norm / apply_geo_norm on DetPairData (apply=true,false), make_fan_sum_data, make_geo_data, make_block_data, "
         "iterate_efficiencies / iterate_geo_norm / iterate_block_norm on DetPairData, KL(DetPairData). "
         "One line per operation (per window bin: where its value went / which fan entry it is read from; per sinogram pair: the whole DetPairData), compared "
@@ -86,6 +87,15 @@ def main(tier, replay):
         "translation and the mirror image, fan sums, fixed points of all iterations (FanProjData, DetPairData, model-free) on data generated from the model, "
         "model-free iterate_efficiencies / make_fan_sum_data = the versions with a model of ones, dead detector -> efficiency 0, KL over detector pairs "
         "non-increasing over 4-5 efficiency iterations (1e-5 relative; FanProjData with model, model-free, KL(DetPairData) itself for the DetPairData overload). "
+        "(2b) WIDE DYNAMIC RANGE (every configuration, FanProjData and DetPairData versions of iterate_block_norm / iterate_geo_norm, and iterate_efficiencies): "
+        "compact-source models model*2^-(step*|tangential offset| + 2*ring difference), step*half_fan = 18, 26 or 40 (class sums spanning 1e5..1e12), in a third "
+        "of the cases exactly 0 at the fan edge (model class sum 0); factors k/8*2^-e, e = 0..26, one in eight exactly 0 (measured class sum 0 with positive model "
+        "sum); in half of the block cases (when the model's block sums allow it) one factor >= 16384 on a class whose measured sum stays below find_max()/10000 "
+        "(the only case in which the guard `(measured >= threshold || measured < 10000*model) ? measured/model : 0` returns 0); all scalings are powers of two, so "
+        "data = factor*model exactly.  apply_*, make_block_data / make_geo_data and the iteration are compared entry by entry with the Lean model (which "
+        "transcribes the guard and threshold = find_max()/10000 exactly; Rat); oracles: measured class sum 0 -> factor 0, otherwise the factor itself (< 10000) is "
+        "reproduced [geo: the ML estimate is reproduced from data generated with it], factor >= 10000 -> itself or 0; efficiencies k/8*2^-e (e = 0..13) are a "
+        "fixed point on the wide model.  input_distribution.wide_range_classes_below_max_over_10000 counts the classes below the threshold that were compared. "
         "(3) multiply_crystal_factors: on every generated scanner (also with virtual crystals: factors indexed with gaps) against apply_efficiencies after gap "
         "removal, and on span 1/3 x view mashing 1/2 x non-TOF/TOF (5 bins) x the three scanner types: every bin = global_factor/num_tof * sum over the "
         "detector pairs that get_bin_for_det_pos_pair maps to it of the product of the two factors. "
@@ -106,6 +116,7 @@ def main(tier, replay):
                         "float arithmetic is modelled exactly in Rat (binary64 for the in-place efficiency sweeps on more than 9 / 8 detectors and for log) and compared with a derived forward bound",
                         "find_max() is modelled for non-negative data; 32-bit overflow not modelled",
                         "block factors (FanProjData) are only executed when BlockData3D::is_in_data holds for every entry of the loop nest (otherwise apply_block_norm reads BlockData3D out of range: KNOWN-CANDIDATE block-norm:...)",
+                        "the guard of iterate_geo_norm / iterate_block_norm: theorems C20_class_ratio_fixed_point_iff (a class factor g is reproduced iff measured >= threshold or g < 10000 or g = 0), C20_class_ratio_empty_class, C20_class_ratio_and_variant_fails (the && variant zeroes every class below the threshold), C20_block_fixed_point_nonneg_model (FanProjData block iteration, non-negative model with empty classes, any dynamic range); the geometric fixed point with EMPTY classes (model or factor exactly 0) is oracle + correspondence only (C20_geo_fixed_point assumes positive model and data); measured > 0 with model class sum 0 (inf in float, data not generated from the model) and all measured class sums 0 (0/0 = NaN in float, 0 in the field model) are not generated",
                         "DetPairData: the fixed points of iterate_geo_norm / iterate_block_norm and the identity KL(DetPairData) = 2 x (sum once per pair) for symmetric data are correspondence + oracle only (no Lean theorem; round trip, apply/un-apply, product of two detectors, efficiency fixed point and descent are theorems); multiply_crystal_factors is oracle-only; ML_estimate_component_based_normalisation is compared with a recomputation from the building blocks, not modelled in Lean",
                         "scanners with virtual crystals have 1 virtual crystal per block (hard-wired to the scanner type in Scanner.cxx); the Lean theorems hold for any number"]
     if audit:
